@@ -551,6 +551,10 @@ def gen_trusted(rng, tier, n_classes):
         wire_table = [[n, wire_mapper(m)] for n, m in sorted(table.items())]
         base = {"suite": "shortcut", "mode": "trusted", "cls": cls, "mappers": wire_table, "mapperSpec": table,
                 "mapperDecls": decls, "enumKinds": pick_kinds(rng)}
+        if not table and len(cls["fields"]) >= 2 and rng.random() < 0.2:
+            # the class is declared as a SUBCLASS: its first k fields live in a parent class (the classifier, the enum
+            # mapping and from_trusted_data must go through get_all_fields_by_name, not the class's own __dict__)
+            base["split"] = rng.randint(1, len(cls["fields"]) - 1)
         chain_table = {n: {"chain": chain_of(dc)} for n, dc in decls.items()}
         for _ in range(4):
             kw = vg.valid_kw(cls)
@@ -656,6 +660,26 @@ def gen_fast(rng, tier, n_classes):
 ENUM_SITES = ["field", "optional", "optionalRev", "array", "set"]
 
 
+TEMPORAL_SITES = {"date": ("date", "plain"), "time": ("time", "plain"), "datetime": ("datetime", "plain"),
+                  "optDate": ("date", "opt"), "arrDate": ("date", "arr"), "optRevTime": ("time", "optRev")}
+TEMPORAL_VALUES = {"date": ["2020-01-31", "1999-12-01", "2024-02-29"], "time": ["07:15:45", "00:00:00", "23:59:59"],
+                   "datetime": ["01/31/20 07:15:45", "12/01/99 00:00:00"]}
+
+
+def _temporal_field(kind):
+    from typedpy.extfields.extfields import DateField, TimeField, DateTime
+    return {"date": DateField, "time": TimeField, "datetime": DateTime}[kind]()
+
+
+def _temporal_value(kind, text):
+    import datetime as _dt
+    if kind == "date":
+        return _dt.datetime.strptime(text, "%Y-%m-%d").date()
+    if kind == "time":
+        return _dt.datetime.strptime(text, "%H:%M:%S").time()
+    return _dt.datetime.strptime(text, "%m/%d/%y %H:%M:%S")
+
+
 def gen_enumvalue(rng, tier, n_classes):
     """classes whose fields are Enum fields over enum classes of every kind, by name and BY VALUE (the model has
     no by-value enums: these cases run the property's oracle on the real code only)"""
@@ -672,6 +696,10 @@ def gen_enumvalue(rng, tier, n_classes):
         # other vocabulary the model does not have: DecimalNumber fields, Constant attributes (int / enum member)
         if rng.random() < 0.3:
             fields.append({"name": "z_d", "site": "decimal"})
+        # SerializableField types the model does not have (the `field_def.deserialize(v)` / `[... for x in v]` branches of
+        # _remap_input, `obj.serialize(val)` of the fast getter): DateField / TimeField / DateTime, bare, Optional, in an Array
+        if rng.random() < 0.3:
+            fields.append({"name": "z_t", "site": rng.choice(["date", "time", "datetime", "optDate", "arrDate", "optRevTime"])})
         if rng.random() < 0.25:
             fields.append({"name": "z_k", "site": "constInt"})
         if rng.random() < 0.25:
@@ -685,7 +713,11 @@ def gen_enumvalue(rng, tier, n_classes):
                     continue
                 if f["name"] not in required and rng.random() < 0.3:
                     continue
-                if f["site"] == "decimal":
+                if f["site"] in TEMPORAL_SITES:
+                    kind = TEMPORAL_SITES[f["site"]][0]
+                    pick = lambda: rng.choice(TEMPORAL_VALUES[kind])
+                    vals.append([f["name"], [pick() for _ in range(rng.randint(0, 3))] if f["site"] == "arrDate" else pick()])
+                elif f["site"] == "decimal":
                     vals.append([f["name"], rng.choice(["1.5", "0.25", 2, "10"])])
                 elif f["site"] == "int":
                     vals.append([f["name"], rng.choice([0, 1, 7])])
@@ -717,6 +749,12 @@ def run_enumvalue(case):
                 continue
             if f["site"] == "decimal":
                 b[f["name"]] = DecimalNumber()
+                continue
+            if f["site"] in TEMPORAL_SITES:
+                kind, wrap = TEMPORAL_SITES[f["site"]]
+                tf = _temporal_field(kind)
+                b[f["name"]] = {"plain": lambda: tf, "opt": lambda: AnyOfF([tf, NoneField()]),
+                                "optRev": lambda: AnyOfF([NoneField(), tf]), "arr": lambda: ArrayF(items=tf)}[wrap]()
                 continue
             if f["site"] == "constInt":
                 b[f["name"]] = Constant(7)
@@ -751,6 +789,10 @@ def run_enumvalue(case):
         f = spec[nm]
         if f["site"] == "int":
             doc[nm] = kw[nm] = v
+        elif f["site"] in TEMPORAL_SITES:
+            kind = TEMPORAL_SITES[f["site"]][0]
+            doc[nm] = v
+            kw[nm] = [_temporal_value(kind, x) for x in v] if isinstance(v, list) else _temporal_value(kind, v)
         elif f["site"] == "decimal":
             doc[nm] = v
             kw[nm] = Decimal(v)
@@ -1000,7 +1042,7 @@ def run_trusted(case):
     decl = case["cls"]
     table = case.get("mapperSpec") or {}
     try:
-        cls = build_tree(decl, ctx, table, mapper_decls=case.get("mapperDecls"))
+        cls = build_tree(decl, ctx, table, mapper_decls=case.get("mapperDecls"), split=case.get("split"))
     except Exception as e:
         return {"unbuildable": f"class: {type(e).__name__}: {e}"}
     bad = _check_class(cls, decl, ctx)
@@ -1248,6 +1290,8 @@ def tags(case, impl, model):
     for dc in (case.get("mapperDecls") or {}).values():
         out.append("mapper-decl:" + dc["kind"])
     if case["mode"] == "trusted":
+        if case.get("split"):
+            out.append("declared:subclass-with-inherited-fields")
         out.append("verdict:" + str(impl.get("verdict")))
         for key in ("regular", "trusted"):
             if key in impl:
